@@ -7,6 +7,7 @@ export GOFLAGS=-mod=mod GOPROXY=off
 unset GOSUMDB GOTOOLCHAIN || true
 mkdir -p .work/bin evidence replays
 (cd go && go build -o ../.work/bin/extract ./cmd/extract && ../.work/bin/extract -repo /repo) || echo "setup: extractor reported a problem"
+(cd go && go build -o ../.work/bin/g2l ./cmd/g2l && ../.work/bin/g2l -repo /repo -spec /verif/trans -out /verif/lean/Rtsp/Generated/Trans) || echo "setup: translator reported a problem"
 targets=$(python3 - <<'PY'
 import json,glob
 t=set()
@@ -23,6 +24,6 @@ PY
   echo "setup: building all targets together failed; building them one by one"
   for t in $targets; do (cd lean && lake build $t) || echo "setup: target $t failed to build"; done
 }
-(cd go && for d in cmd/*/; do n=$(basename $d); [ "$n" = extract ] && continue; go build -tags verif -o ../.work/bin/$n ./cmd/$n || echo "setup: go cmd $n failed to build"; done)
+(cd go && for d in cmd/*/; do n=$(basename $d); [ "$n" = extract ] && continue; [ "$n" = g2l ] && continue; go build -tags verif -o ../.work/bin/$n ./cmd/$n || echo "setup: go cmd $n failed to build"; done)
 echo setup done
 exit 0
